@@ -64,6 +64,16 @@ def gen_entity(rng, eid, tag):
         d["aa"] = {"keys": keys(), "attribute_service": eps("aa", lo=1)}
     if rng.random() < 0.4:
         d["entity_categories"] = rng.sample(CATS, rng.randint(1, 2))
+    # a sibling role descriptor of the same entity for SAML 1.x only (its own endpoints, key and requested attributes): none of it is a SAML 2.0
+    # declaration of the entity
+    if rng.random() < 0.3 and ("idp" in roles or "sp" in roles):
+        base = "%s/%s/legacy" % (eid.rsplit("/", 1)[0], tag)
+        d["saml11"] = {"first": rng.random() < 0.5}
+        if "idp" in roles:
+            d["saml11"]["idp"] = {"keys": [("signing", 11)], "sso": [(REDIR, base + "/sso"), (POST, base + "/sso-post")], "slo": [(REDIR, base + "/slo")]}
+        if "sp" in roles:
+            d["saml11"]["sp"] = {"keys": [("signing", 11), ("encryption", 11)], "acs": [(POST, base + "/acs", 1, True), (ART, base + "/acs-art", 2, None)],
+                                 "slo": [(POST, base + "/slo")], "requested": [("urn:oid:2.5.4.4", "sn", True, [])]}
     # the same declarations in another legal spelling (xs:boolean "1"/"0", typed attribute values)
     if rng.random() < 0.35:
         d["lexical"] = {"bool": rng.choice(["digits", "digits", "padded"]), "ecat_type": rng.choice([None, "xs:string", "xs:anyURI"])}
@@ -395,6 +405,42 @@ def compare(case, store, sources, viol, counters, sigs, tag=None):
                         adm.append((sorted(n for n, f, r, v in req if r is True), sorted(n for n, f, r, v in req if r is not True)))
             if got not in adm:
                 bad("C16/attribute-requirement-differs", "%s -> %r, declared %r" % (eid, got, adm))
+    # the store's listing helpers: who has which role
+    for fn, role in (("identity_providers", "idp"), ("service_providers", "sp"), ("attribute_authorities", "aa")):
+        hit("provider_listing_checks")
+        try:
+            got = set(getattr(store, fn)())
+        except Exception as exc:
+            bad("C16/provider-listing-differs", "%s() raised %r" % (fn, exc))
+            continue
+        must = set(e for e, ds in model.items() if all(d.get(role) for d in ds))
+        may = set(e for e, ds in model.items() if any(d.get(role) for d in ds))
+        if not (must <= got <= may):
+            bad("C16/provider-listing-differs", "%s() -> %r, model must %r may %r" % (fn, sorted(got), sorted(must), sorted(may)))
+    # bindings(): what service() says, through the helper of that name; and the categories as one loaded source reports them
+    for eid, ds in sorted(model.items()):
+        for typ, role, svc, key in (("idpsso_descriptor", "idp", "single_sign_on_service", "sso"), ("spsso_descriptor", "sp", "assertion_consumer_service", "acs")):
+            if not all(d.get(role) for d in ds):
+                continue
+            hit("bindings_helper_checks")
+            try:
+                got = store.bindings(eid, typ, svc)
+            except Exception as exc:
+                got = "raise:" + type(exc).__name__
+            want = [sorted(set(x[0] for x in d[role].get(key, []))) for d in ds]
+            gotb = sorted(got.keys()) if isinstance(got, dict) else got
+            if gotb not in want:
+                bad("C16/bindings-helper-differs", "bindings(%s, %s, %s) -> %r, declared bindings %r" % (eid, typ, svc, gotb, want))
+        if len(ds) == 1:
+            for src in store.metadata.values():
+                if eid in src:
+                    hit("source_category_lookups")
+                    try:
+                        got = sorted(src.entity_categories(eid))
+                    except Exception as exc:
+                        got = "raise:" + type(exc).__name__
+                    if got != sorted(ds[0].get("entity_categories", [])):
+                        bad("C16/entity-categories-differ", "%s as reported by its source -> %r, declared %r" % (eid, got, sorted(ds[0].get("entity_categories", []))))
     for descr, role in (("idpsso", "idp"), ("spsso", "sp"), ("attribute_authority", "aa")):
         hit("with_descriptor_checks")
         got = set(store.with_descriptor(descr).keys())
